@@ -279,6 +279,11 @@ class PSBT:
                     )
                 tx_in.script_sig = Script()
                 tx_in.witness = Witness()
+            # a partial signature can only be checked against the output it spends
+            if psbt_in.sigs and not (psbt_in.prev_out or psbt_in.prev_tx):
+                raise ValueError(
+                    f"partial signature at input {i} provided without a UTXO to validate it"
+                )
             # validate the signatures
             if psbt_in.sigs:
                 for sec, sig in psbt_in.sigs.items():
